@@ -205,8 +205,10 @@ class Interp:
         while self.worklist and self.stats['paths'] < max_paths:
             self.decisions = self.worklist.pop(); self.dpos = 0; self.nsym = 0; self.inputs = []; self.unknowns = 0
             self.solver.push(); self.solver.decls = set(); self.pathcache = {}
+            if hasattr(self, 'sched'): self.sched.reset()
             try:
                 self.call_fn(entry, [])
+                if hasattr(self, 'sched') and self.sched.abort: raise self.sched.abort
                 self.stats['paths'] += 1
             except Infeasible:
                 import traceback; self.last_inf = traceback.format_exc()
